@@ -89,6 +89,14 @@ var natives = []native{
 	{"typed enum", reflect.TypeOf(ukit.MyStr("")), func() schema.Type {
 		return schema.NewTypedStringEnumSchema[ukit.MyStr](map[ukit.MyStr]*schema.DisplayValue{"a": nil, "b": nil})
 	}, ukit.MyStr("a")},
+	// the statically typed list and map schemas (same Go types as their untyped counterparts above; they answer the
+	// list / map type id without being an UntypedList / UntypedMap)
+	{"typed list<int>", reflect.TypeOf([]int64{}), func() schema.Type {
+		return schema.NewTypedListSchema[int64](schema.NewIntSchema(nil, nil, nil), nil, nil)
+	}, []int64{1, 2}},
+	{"typed map<string,int>", reflect.TypeOf(map[string]int64{}), func() schema.Type {
+		return schema.NewTypedMapSchema[string, int64](schema.NewStringSchema(nil, nil, nil), schema.NewIntSchema(nil, nil, nil), nil, nil)
+	}, map[string]int64{"k": 1}},
 }
 
 // paramLists: 0..2 parameters over all 7 natives, 3 parameters over the first 3
@@ -462,7 +470,7 @@ func main() {
 			res := run("quick", b, 0, time.Time{})
 			return res.Findings
 		},
-		Rule: "handlers built with reflect.MakeFunc for every parameter list of 0-2 parameters over 13 native types (int64, string, float64, bool, []string, map[string]int64, any, map[int64]int64, []int64, []map[string]int64, []map[int64]int64, []MyStr (a list of typed enum values), MyStr) and 3 parameters over 3 types x 14 result shapes (none, V, error, (V,error), (V,V), (V,V,error), (error,V), (V,bool), (V, int type named 'error'), (int type named 'error'), and four with a result that implements error without being the predeclared interface: (V,*T), (V,struct), (V, wider interface), (*T)) x declarations (matching inputs, every single-position mismatch, one fewer, one more; output in {nil, each of the 7}; outputsError in {false,true}) for NewCallableFunction, and the inputs for NewDynamicCallableFunction; every accepted function is called with 0..4 arguments, and once with a handler returning a non-nil error",
+		Rule: "handlers built with reflect.MakeFunc for every parameter list of 0-2 parameters over 15 native types (the typed list / map schemas included; int64, string, float64, bool, []string, map[string]int64, any, map[int64]int64, []int64, []map[string]int64, []map[int64]int64, []MyStr (a list of typed enum values), MyStr) and 3 parameters over 3 types x 14 result shapes (none, V, error, (V,error), (V,V), (V,V,error), (error,V), (V,bool), (V, int type named 'error'), (int type named 'error'), and four with a result that implements error without being the predeclared interface: (V,*T), (V,struct), (V, wider interface), (*T)) x declarations (matching inputs, every single-position mismatch, one fewer, one more; output in {nil, each of the 7}; outputsError in {false,true}) for NewCallableFunction, and the inputs for NewDynamicCallableFunction; every accepted function is called with 0..4 arguments, and once with a handler returning a non-nil error",
 		Assumptions: []string{
 			"reference predicate: parameter and result types equal the schemas' reflected types; an error result is the predeclared interface type error",
 			"interface types other than `error` that embed error are outside the alphabet",
